@@ -609,6 +609,20 @@ def decIface (gs : Gens) (ctor : Option Grp) (vb : List Nat) : Option (Grp × Li
 def ifaceSame (gs : Gens) (suite : Option SuiteId) (k : Kind) (g : Grp) (bytes : List Nat) : Bool :=
   decIface gs (defaultConstructors suite k) (encIface gs g.marshalID bytes) == some (g, bytes)
 
+/-- `localLoop` with the envelope in view -/
+def localEnvLoop {V : Type} (cd : Codec V) (remote : Nat) (procs : List (List Nat)) (q : List (List Nat)) :
+    List (EnvEvent V) :=
+  q.map (classifyEnv cd remote procs) ++ [.closed .closed]
+
+/-- `Close` of an in-memory connection (local.go:157-176, 258-272, 341-345): `start` closes both
+queues; what it had already moved to `outgoingQueue` can still be received, what was still in
+`incomingQueue` is gone; from then on `Receive` (once drained) and the peer's `Send` answer
+`ErrClosed` (local.go:143-149, 295-298). -/
+def lclose (s : LQ) : LQ := { s with inc := [] }
+
+/-- `LocalConn.Send` on a connection that was closed: `manager.send` no longer finds the peer -/
+def localSendClosed : RecvErr := .closed
+
 /-! ### line-protocol driver -/
 namespace Drv
 
@@ -763,6 +777,9 @@ def parseKind : String → Option Kind
 * `iface <unm|tcp> <connection suite|nil> <value suite> <point|scalar> <length> <seed>` — a message with
   one point/scalar of the value suite, marshalled and then unmarshalled with the connection's suite
   (directly, or sent and received over a pair of `TCPConn`s): `same` / `differs`
+* `lloop <buffers> <n>` — the buffers are put as they are onto an in-memory connection into a
+  router's receive loop; once they are consumed the sender closes the connection and calls `Send`
+  `n` more times
 * `wsend <buffers> <write oracle> <chunks>` — one sender `sendRaw`s the buffers one after the other
   whatever the earlier results were; the transport treats its `Write` calls as the oracle says
   (`a<k>` accepted, `f<k>` fails after `k` bytes); the receiver reads what arrived, cut as `chunks`:
@@ -854,6 +871,12 @@ def step (s : State) (toks : List String) : State × String :=
       -- assumption the generator checks), only their number does
       (s, if ifaceSame onetGens su kd (vs.make kd) (List.replicate n 0) then "same" else "differs")
     | _, _, _, _ => (s, "bad-op")
+  | ["lloop", fr, after] =>
+    match hexList fr, after.toNat? with
+    | some fr, some n =>
+      (s, showEnvEvents (localEnvLoop cd 0 procs fr) ++ " after:" ++
+        (if n = 0 then "-" else ",".intercalate (List.replicate n (showErr localSendClosed))))
+    | _, _ => (s, "bad-op")
   | ["wsend", bufs, orc, ch] =>
     match hexList bufs, parseOracle orc, Util.natList ch with
     | some bufs, some o, some ch =>
